@@ -184,8 +184,8 @@ def session(draw, max_ops=5, ops_allowed=None, big=True, with_frag=False, with_w
         tr["frag"] = tame_frag(draw(frag_tape()), total)
     if with_wcap:
         tr["wcap"] = draw(st.one_of(st.just([]), st.lists(st.one_of(st.sampled_from([1, 2, 23, 24, 25, 4096, 0]), st.integers(1, 100000)), min_size=1, max_size=6)))
-        if tr["wcap"] and total > 50000:
-            need = total // 20000 + 1
+        if tr["wcap"] and total > 8000:
+            need = total // 3000 + 1
             tr["wcap"] = [w if w == 0 else max(w, need) for w in tr["wcap"]]
     return {
         "api": draw(st.sampled_from(["sync", "async"])),
